@@ -2203,6 +2203,9 @@ package sftp
 //@   results flags, st
 //@   requires fi != nil
 //@   ensures st != nil
+//@   ensures typeis(fi, FileInfoUidGid) ==> flags & sshFileXferAttrUIDGID != 0
+//@   ensures flags & sshFileXferAttrExtended != 0 ==> len(st.Extended) > 0
+// (C06 / C17: an owner supplied through the FileInfoUidGid callbacks is announced in the flags, so it is put on the wire)
 
 // ---------------------------------------------------------------------------
 // shutdown of the packet manager (C02: every received request is answered, also when the input ends right behind it)
